@@ -137,7 +137,8 @@ Lemma equals_authority_hostless src base : is_host_set src = false -> hostText b
 Proof.
   intros Hh Hb. unfold is_host_set in Hh. unfold equals_authority.
   destruct (hostText src), (ip4 src), (ip6 src), (ipFuture src); try discriminate Hh.
-  destruct (hostText base); [|congruence]. rewrite andb_false_r. reflexivity.
+  destruct (hostText base); [|congruence].
+  destruct (is_some (ip4 base) || is_some (ip6 base) || is_some (ipFuture base)); rewrite andb_false_r; reflexivity.
 Qed.
 
 (* same scheme, other authority: scheme apart, everything is copied from the source *)
@@ -213,7 +214,7 @@ Lemma bytes_eqb_refl a : bytes_eqb a a = true.
 Proof. induction a as [|x a IH]; [reflexivity|]. cbn [bytes_eqb]. rewrite N.eqb_refl, IH. reflexivity. Qed.
 
 (* the host compared in the kind of the first URI: IPv4 octets, else IPv6 bytes, else the IPvFuture
-   text, else the host text *)
+   text, else the host text -- and then the second URI has no IP data either *)
 Definition host_same (a b : uri) : Prop :=
   match ip4 a with
   | Some x => ip4 b = Some x
@@ -223,7 +224,7 @@ Definition host_same (a b : uri) : Prop :=
     | None =>
       match ipFuture a with
       | Some f => ipFuture b = Some f
-      | None => hostText a = hostText b
+      | None => hostText a = hostText b /\ ip4 b = None /\ ip6 b = None /\ ipFuture b = None
       end
     end
   end.
@@ -246,12 +247,14 @@ Proof.
     { destruct (ip6 b) as [y|]; [|discriminate H3]. rewrite (bytes_eqb_eq x y H3). reflexivity. }
     destruct (ipFuture a) as [f|] eqn:Ef.
     { apply andb_true_iff in H3. destruct H3 as [_ H3]. symmetry. exact (range_eqb_eq _ _ Hf H3). }
-    exact (range_eqb_eq _ _ Hh H3).
+    destruct (ip4 b); [discriminate H3|]. destruct (ip6 b); [discriminate H3|].
+    destruct (ipFuture b); [discriminate H3|]. cbn [is_some orb] in H3.
+    split; [exact (range_eqb_eq _ _ Hh H3)|auto].
   - intros [H1 [H2 H3]]. rewrite <- H1, <- H2, !range_eqb_refl. cbn [andb].
     destruct (ip4 a) as [x|]; [rewrite H3; apply bytes_eqb_refl|].
     destruct (ip6 a) as [x|]; [rewrite H3; apply bytes_eqb_refl|].
     destruct (ipFuture a) as [f|]; [rewrite H3; cbn [is_some andb]; apply range_eqb_refl|].
-    rewrite <- H3. apply range_eqb_refl.
+    destruct H3 as (H3 & -> & -> & ->). cbn [is_some orb]. rewrite <- H3. apply range_eqb_refl.
 Qed.
 
 (* ---------------------------------------------------------------- 4. the two walks *)
@@ -1132,6 +1135,12 @@ Definition c10_good (u : uri) : bool :=
   wf u && no_ip u && auth_nonul u && forallb nonul (pathSegs u)
   && (is_host_set u || (negb (is_some (userInfo u)) && negb (is_some (portText u)))).
 
+(* what is asked of the base: well formed, user info and port only together with a host.  Nothing about
+   its host kind: when uriEqualsAuthority says "equal" and the source has no IP data, the base has none
+   either (equal_authority_no_ip); otherwise the reference does not depend on the base's authority *)
+Definition c10_base (u : uri) : bool :=
+  wf u && (is_host_set u || (negb (is_some (userInfo u)) && negb (is_some (portText u)))).
+
 (* the shapes on which reference creation is known not to round-trip *)
 Definition c10_failing_shape (m : bool) (s b : uri) : bool :=
   if negb (range_eqb (scheme s) (scheme b)) then false
@@ -1163,17 +1172,37 @@ Proof.
   reflexivity.
 Qed.
 
-Lemma equal_authority_fields_no_ip a b : no_ip a = true -> no_ip b = true -> auth_nonul a = true ->
+(* a host without IP data only equals a host without IP data (uriEqualsAuthority refuses to compare a
+   registered name with the text of an IP literal) *)
+Lemma equal_authority_no_ip a b : no_ip a = true -> equals_authority a b = true -> no_ip b = true.
+Proof.
+  unfold no_ip, equals_authority. intros Na He.
+  destruct (ip4 a); [discriminate Na|]. destruct (ip6 a); [discriminate Na|]. destruct (ipFuture a); [discriminate Na|].
+  apply andb_true_iff in He. destruct He as [_ He].
+  destruct (ip4 b); [discriminate He|]. destruct (ip6 b); [discriminate He|]. destruct (ipFuture b); [discriminate He|].
+  reflexivity.
+Qed.
+
+Lemma equal_authority_fields_no_ip a b : no_ip a = true -> auth_nonul a = true ->
   equals_authority a b = true -> auth_fields a = auth_fields b.
 Proof.
-  intros Na Nb Hn He. apply (equals_authority_fields a b Hn) in He. destruct He as (E1 & E2 & E3).
+  intros Na Hn He. pose proof (equal_authority_no_ip a b Na He) as Nb.
+  apply (equals_authority_fields a b Hn) in He. destruct He as (E1 & E2 & E3).
   unfold host_same in E3. unfold no_ip in Na, Nb. unfold auth_fields.
   destruct (ip4 a); [discriminate Na|]. destruct (ip6 a); [discriminate Na|]. destruct (ipFuture a); [discriminate Na|].
   destruct (ip4 b); [discriminate Nb|]. destruct (ip6 b); [discriminate Nb|]. destruct (ipFuture b); [discriminate Nb|].
-  rewrite E1, E2, E3. reflexivity.
+  destruct E3 as [E3 _]. rewrite E1, E2, E3. reflexivity.
 Qed.
 
-Theorem roundtrip_carved m src base : c10_good src = true -> c10_good base = true ->
+Lemma c10_good_base u : c10_good u = true -> c10_base u = true.
+Proof.
+  unfold c10_good, c10_base. intros G.
+  apply andb_true_iff in G. destruct G as [G U]. apply andb_true_iff in G. destruct G as [G _].
+  apply andb_true_iff in G. destruct G as [G _]. apply andb_true_iff in G. destruct G as [W _].
+  rewrite W, U. reflexivity.
+Qed.
+
+Theorem roundtrip_carved m src base : c10_good src = true -> c10_base base = true ->
   scheme src <> None -> scheme base <> None -> c10_failing_shape m src base = false ->
   let r := snd (remove_base m src base) in
   fst (remove_base m src base) = URI_SUCCESS
@@ -1184,9 +1213,8 @@ Proof.
   split; [exact (remove_base_success m src base Hs Hb)|].
   apply andb_true_iff in Gs. destruct Gs as [Gs Us]. apply andb_true_iff in Gs. destruct Gs as [Gs Nps].
   apply andb_true_iff in Gs. destruct Gs as [Gs Ans]. apply andb_true_iff in Gs. destruct Gs as [Ws Is].
-  apply andb_true_iff in Gb. destruct Gb as [Gb Ub]. apply andb_true_iff in Gb. destruct Gb as [Gb Npb].
-  apply andb_true_iff in Gb. destruct Gb as [Gb Anb]. apply andb_true_iff in Gb. destruct Gb as [Wb Ib].
-  pose proof (no_ip_one_kind src Is) as Ks. pose proof (no_ip_one_kind base Ib) as Kb.
+  unfold c10_base in Gb. apply andb_true_iff in Gb. destruct Gb as [Wb Ub].
+  pose proof (no_ip_one_kind src Is) as Ks.
   unfold c10_failing_shape in Hshape.
   destruct (range_eqb (scheme src) (scheme base)) eqn:He; cbn [negb] in Hshape.
   2:{ exact (roundtrip_copy_target m src base Hs Hb (or_introl He) Ws Ks). }
@@ -1199,7 +1227,8 @@ Proof.
           apply andb_true_iff in Us. destruct Us as [U1 U2]. apply negb_true_iff in U1. apply negb_true_iff in U2.
           apply andb_true_iff in Ub. destruct Ub as [U3 U4]. apply negb_true_iff in U3. apply negb_true_iff in U4.
           rewrite (hostless_equal_authority src base Hhs Hhb U1 U2 U3 U4) in Ea. discriminate Ea. }
-  pose proof (equal_authority_fields_no_ip src base Is Ib Ans Ea) as Eaf.
+  pose proof (equal_authority_no_ip src base Is Ea) as Ib. pose proof (no_ip_one_kind base Ib) as Kb.
+  pose proof (equal_authority_fields_no_ip src base Is Ans Ea) as Eaf.
   pose proof (host_of_auth_fields _ _ Eaf) as Hhost.
   destruct m.
   - (* domain-root mode *)
